@@ -11,3 +11,5 @@ open Bec2Verif.Props.C13
 #print axioms emit_ignored
 #print axioms marker_required
 #print axioms emit_empty_rejected
+#print axioms ignored_section_swallows_nothing
+#print axioms orphan_continuation_rejected
